@@ -262,16 +262,22 @@ class AbstractPool:
                     worker._dbs = worker._dbs.set(
                         dbname,
                         state.PickledDatabaseState(
+                            # NB: an empty reflection cache / config map
+                            # is falsy, so test against None explicitly.
                             user_schema_pickle=(
                                 user_schema_pickle
-                                or worker_db.user_schema_pickle
+                                if user_schema_pickle is not None
+                                else worker_db.user_schema_pickle
                             ),
                             reflection_cache=(
                                 reflection_cache
-                                or worker_db.reflection_cache
+                                if reflection_cache is not None
+                                else worker_db.reflection_cache
                             ),
                             database_config=(
-                                database_config or worker_db.database_config
+                                database_config
+                                if database_config is not None
+                                else worker_db.database_config
                             ),
                         ),
                     )
@@ -1448,15 +1454,22 @@ class MultiTenantPool(FixedPool):
                     tenant_schema.dbs = tenant_schema.dbs.set(
                         dbname,
                         state.PickledDatabaseState(
+                            # NB: an empty reflection cache / config map
+                            # is falsy, so test against None explicitly.
                             user_schema_pickle=(
                                 user_schema_pickle
-                                or worker_db.user_schema_pickle
+                                if user_schema_pickle is not None
+                                else worker_db.user_schema_pickle
                             ),
                             reflection_cache=(
-                                reflection_cache or worker_db.reflection_cache
+                                reflection_cache
+                                if reflection_cache is not None
+                                else worker_db.reflection_cache
                             ),
                             database_config=(
-                                database_config or worker_db.database_config
+                                database_config
+                                if database_config is not None
+                                else worker_db.database_config
                             ),
                         )
                     )
